@@ -5,8 +5,8 @@ MC   LinearFile.tla: the graph file as cache/durable images, one action per I/O 
      sync, close, open) and Crash(plan) = every assignment of {lost, kept, torn at each prefix}
      to the writes issued since the last sync; invariants Recoverable, DurableRootsSound,
      CleanReopen, NothingNewerVisible, WithinAlloc.  Spec mutants (no first sync, no slot
-     alternation, no checksum, generation not incremented, no wipe of an invalid slot on open)
-     must be rejected by TLC.
+     alternation, no checksum, generation not incremented, no wipe of an invalid slot on open,
+     data_dirty not set by the commit's own head-set record) must be rejected by TLC.
 I2S  the I/O log recorded from the real `LinearStorageProvider<FileManager>` (hook
      storage/linear/libc/verif.rs) while a real multi-commit workload runs must be a behaviour
      of Trace_LinearFile (same actions, real constants, logged offsets / decoded root bound).
@@ -133,7 +133,7 @@ def run(ctx):
     # ---- MC: the design admits no bad crash --------------------------------------------
     r = ctx.tlc("LinearFile", "MC_LinearFile_thorough.cfg" if ctx.thorough else "MC_LinearFile.cfg", timeout=1500)
     ctx.require_actions(r, MC_ACTIONS + (["Close"] if ctx.thorough else []))
-    mutants = ["nosync1", "noalt", "nochecksum", "nogen", "noscrub"] if ctx.thorough else []
+    mutants = ["nosync1", "noalt", "nochecksum", "nogen", "noscrub", "dirtyappend"] if ctx.thorough else []
     rejected = []
     for m in mutants:
         mr = ctx.tlc("LinearFile", "MC_LinearFile_mut_%s.cfg" % m, allow_violation=True, coverage=False, timeout=600)
@@ -142,6 +142,12 @@ def run(ctx):
                                   % (m, mr.violated))
         rejected.append(m)
     ctx.cov["spec_mutants_rejected"] = rejected
+    if ctx.thorough:
+        # reachability witness: a commit whose own head-set record is the only dirty data
+        wr = ctx.tlc("LinearFile", "MC_LinearFile_barecommit.cfg", allow_violation=True, coverage=False, timeout=300)
+        if wr.violated != "BareCommitReached":
+            raise verif.ToolError("vacuity: no bare commit (commit without a preceding append) is reachable in the model")
+        ctx.cov["bare_commit_reachable"] = True
     if ctx.thorough:
         # two crashes (crash, recover, commit, crash): passes only because open wipes an invalid slot
         ctx.tlc("LinearFile", "MC_LinearFile_recrash.cfg", coverage=False, timeout=900)
@@ -215,7 +221,7 @@ def run(ctx):
     if victim is None:
         raise verif.ToolError("self-test: no plan after the second commit")
     bad = dict(victim)
-    bad["allowed"] = [victim["allowed"][0] - 1]
+    bad["allowed"] = [0]          # "no commit completed": the recovered commit can never match
     sres = replay(ctx, vh, sort_items(commits + [bad]), wl, dense, obs["digest"], "selftest-allowed")
     if all(x.get("ok") for x in sres):
         raise verif.ToolError("binding self-test failed: a crash plan with a wrong allowed set was accepted")
